@@ -167,3 +167,8 @@ Theorem C09_finite_arithmetic_results_print : forall x y r, valid x -> valid y -
   finite64 r -> exists s, to_bn_num r = Some s.
 Proof. exact arithmetic_results_print. Qed.
 Print Assumptions C09_finite_arithmetic_results_print.
+
+Theorem C09_finite_literals_print : forall rest line file v n,
+  consume_num rest line file = Ok (v, n) -> finite64 v -> exists s, to_bn_num v = Some s.
+Proof. exact finite_literals_print. Qed.
+Print Assumptions C09_finite_literals_print.
